@@ -135,7 +135,107 @@ def rewrite(src: str, filename: str) -> tuple:
   return ast.unparse(tree) + '\n', n_renamed
 
 
-def make_variant(dst: str) -> int:
+class _IfFlipper(ast.NodeTransformer):
+  """`if c: A else: B` -> `if not c: B else: A` for plain two-armed ifs (no
+
+  elif chain on either side), and `x if c else y` likewise.  Behaviour is
+  unchanged.
+  """
+
+  def __init__(self):
+    self.count = 0
+
+  def visit_If(self, node):
+    self.generic_visit(node)
+    if node.orelse and not (len(node.orelse) == 1 and isinstance(
+        node.orelse[0], ast.If)) and not (len(node.body) == 1 and isinstance(
+            node.body[0], ast.If)):
+      self.count += 1
+      test = node.test
+      if isinstance(test, ast.UnaryOp) and isinstance(test.op, ast.Not):
+        new_test = test.operand
+      else:
+        new_test = ast.UnaryOp(op=ast.Not(), operand=test)
+      return ast.copy_location(
+          ast.If(test=new_test, body=node.orelse, orelse=node.body), node)
+    return node
+
+
+class _ElseDedenter(ast.NodeTransformer):
+  """`if c: ...; return/raise/continue/break  else: B`  ->  the same `if`
+
+  without else, followed by B (guard-clause style).  Applied inside statement
+  lists; elif chains are handled from the innermost `if` outwards.
+  """
+
+  def __init__(self):
+    self.count = 0
+
+  def _terminates(self, body):
+    last = body[-1]
+    if isinstance(last, (ast.Return, ast.Raise, ast.Continue, ast.Break)):
+      return True
+    if isinstance(last, ast.If) and last.orelse:
+      return self._terminates(last.body) and self._terminates(last.orelse)
+    return False
+
+  def _rewrite(self, stmts):
+    out = []
+    for st in stmts:
+      st = self.visit(st)
+      if isinstance(st, ast.If) and st.orelse and self._terminates(st.body):
+        self.count += 1
+        tail = st.orelse
+        st.orelse = []
+        out.append(st)
+        out.extend(self._rewrite_flat(tail))
+      else:
+        out.append(st)
+    return out
+
+  def _rewrite_flat(self, stmts):
+    # the moved statements were already visited as children of the if
+    out = []
+    for st in stmts:
+      if isinstance(st, ast.If) and st.orelse and self._terminates(st.body):
+        self.count += 1
+        tail = st.orelse
+        st.orelse = []
+        out.append(st)
+        out.extend(self._rewrite_flat(tail))
+      else:
+        out.append(st)
+    return out
+
+  def generic_visit(self, node):
+    for field in ('body', 'orelse', 'finalbody'):
+      val = getattr(node, field, None)
+      if isinstance(val, list) and val and isinstance(val[0], ast.stmt):
+        setattr(node, field, self._rewrite(val))
+    for h in getattr(node, 'handlers', []) or []:
+      h.body = self._rewrite(h.body)
+    for c in getattr(node, 'cases', []) or []:
+      c.body = self._rewrite(c.body)
+    return node
+
+
+def dedent_else(src: str) -> tuple:
+  tree = ast.parse(src)
+  d = _ElseDedenter()
+  tree = d.visit(tree)
+  ast.fix_missing_locations(tree)
+  return ast.unparse(tree) + '\n', d.count
+
+
+def flip_ifs(src: str) -> tuple:
+  tree = ast.parse(src)
+  fl = _IfFlipper()
+  tree = fl.visit(tree)
+  ast.fix_missing_locations(tree)
+  return ast.unparse(tree) + '\n', fl.count
+
+
+def make_variant(dst: str, mode: str = 'alpha') -> int:
   src = os.path.join(REPO, 'fiddle')
   shutil.copytree(src, os.path.join(dst, 'fiddle'),
                   ignore=shutil.ignore_patterns('__pycache__', '*.pyc'))
@@ -146,7 +246,8 @@ def make_variant(dst: str) -> int:
         p = os.path.join(dp, fn)
         with open(p) as f:
           s = f.read()
-        new, n = rewrite(s, p)
+        new, n = {'alpha': rewrite, 'flip': lambda s_, p_: flip_ifs(s_),
+                  'guard': lambda s_, p_: dedent_else(s_)}[mode](s, p)
         compile(new, p, 'exec')
         with open(p, 'w') as f:
           f.write(new)
@@ -168,6 +269,7 @@ def main():
   ap = argparse.ArgumentParser()
   ap.add_argument('--prop')
   ap.add_argument('--keep', action='store_true')
+  ap.add_argument('--mode', default='alpha', choices=['alpha', 'flip', 'guard'])
   ap.add_argument('--test', action='store_true',
                   help='also run the renamed tree\'s own unit tests '
                   '(confirms the rewriting preserves behaviour)')
@@ -175,8 +277,8 @@ def main():
   tmp = tempfile.mkdtemp(prefix='fdlstatic-alpha-')
   bad = 0
   try:
-    n = make_variant(tmp)
-    print(f'alpha: {n} local variables renamed under {tmp}')
+    n = make_variant(tmp, a.mode)
+    print(f'alpha: {n} ' + {'alpha': 'local variables renamed', 'flip': 'two-armed ifs flipped', 'guard': 'else branches turned into guard clauses'}[a.mode] + f' under {tmp}')
     if a.test:
       shutil.copy(os.path.join(REPO, 'setup.py'), tmp) if os.path.exists(
           os.path.join(REPO, 'setup.py')) else None
